@@ -18,8 +18,8 @@ MAX_OBJS = 40  # no further copies once a history has this many objects
 JUNK_BASE = 900  # ids from here on are not objects: entries of a foreign type in an argument list
 
 
-class _Hang(Exception):
-    pass
+class _Hang(BaseException):
+    """not an Exception: the harness catches Exception around every real operation to record its error kind"""
 
 
 def _limited(fn, seconds, what):
@@ -28,12 +28,14 @@ def _limited(fn, seconds, what):
     import signal
 
     def _alarm(signum, frame):
-        raise TimeoutError(f"the real code did not return within {seconds} s while running {what} (a cyclic collection tree makes the *_all views and every tree walk endless)")
+        raise _Hang(f"the real code did not return within {seconds} s while running {what} (a cyclic collection tree makes add(), the *_all views and every tree walk endless)")
 
     old = signal.signal(signal.SIGALRM, _alarm)
     signal.setitimer(signal.ITIMER_REAL, seconds)
     try:
         return fn()
+    except _Hang as e:
+        raise TimeoutError(str(e)) from None
     finally:
         signal.setitimer(signal.ITIMER_REAL, 0)
         signal.signal(signal.SIGALRM, old)
